@@ -25,11 +25,13 @@ Base == {
   Mapc("map:si:a=1,b=2,c=3", "string", << <<SB("a"), IntV(1)>>, <<SB("b"), IntV(2)>>, <<SB("c"), IntV(3)>> >>),
   Mapc("map:sv:1=one", "string", << <<SB("1"), SB("one")>> >>),
   Mapc("map:is:1=a,2=b", "int", << <<IntV(1), SB("a")>>, <<IntV(2), SB("b")>> >>),
+  Mapc("map:ns:1=a,3=c", "int", << <<IntV(1), SB("a")>>, <<IntV(3), SB("c")>> >>),          \* map[userID]string, type userID int
+  Mapc("map:ls:0=z,2=b,8=h", "int", << <<IntV(0), SB("z")>>, <<IntV(2), SB("b")>>, <<IntV(8), SB("h")>> >>),   \* map[userLevel]string, uint8
   Mapc("map:bs:t=yes", "bool", << <<Bool(TRUE), SB("yes")>> >>),
   Mapc("map:fs:1.5=h", "float", << <<Num(96), SB("h")>> >>),
   [id |-> "struct:person", kind |-> "struct"] }
 Ptrs == {[d EXCEPT !.id = "ptr:" \o d.id] : d \in {b \in Base : b.id \in {"slice:int:4,5,6", "slice:string:a,b", "map:ss:a=x,b=y",
-                                                                              "map:is:1=a,2=b", "struct:person", "array3", "slice:int:"}}}
+                                                                              "map:is:1=a,2=b", "map:ns:1=a,3=c", "struct:person", "array3", "slice:int:"}}}
 Nils == {[id |-> x, kind |-> "nil"] : x \in {"nil", "nilptr:slice", "nilptr:map", "nilptr:person", "slice:nilint", "map:nilss", "nilptr:int"}}
 Scalars == {[id |-> x, kind |-> "scalar"] : x \in {"num:int:192", "num:float64:96", "str:abc", "bool:t", "stringer:abc", "func", "chan"}}
 Containers == Base \cup Ptrs \cup Nils \cup Scalars
@@ -37,7 +39,7 @@ Desc(id) == CHOOSE d \in Containers : d.id = id
 
 Keys == << SB("a"), SB("zz"), SB("1"), SB(""), IntV(0), IntV(1), IntV(2), IntV(3), IntV(8), IntV(0 - 1), Num(96), Bool(TRUE), Bool(FALSE), Null,
            SB("Name"), SB("Age"), SB("Tags"), SB("Inner"), SB("secret"), SB("Greet"), SB("Nothing"), SB("Two"), SB("Sum"), SB("Rename"),
-           SB("Self"), SB("hidden"), SB("Nope"), SB("k"), IntV(1000000) >>
+           SB("Self"), SB("hidden"), SB("Nope"), SB("k"), IntV(1000000), SB("Wait"), SB("Level"), IntV(300) >>
 ArgLists == << <<>>, <<SB("hi")>>, <<IntV(1)>>, <<IntV(1), IntV(2)>>, <<SB("a"), SB("b")>>, <<Null>>, <<Bool(TRUE)>>, <<SB("a"), IntV(2), IntV(3)>> >>
 
 Elem(v) == [r |-> "elem", v |-> v]
@@ -53,6 +55,11 @@ MethodRef(name, args) ==
                        ELSE IF args[1].t = "num" /\ args[2].t = "num" THEN Elem(Num(args[1].q + args[2].q)) ELSE ErrR
     [] name = "Rename" -> IF Len(args) # 1 THEN ErrR ELSE IF args[1].t = "str" THEN Elem(SB("Ann")) ELSE ErrR
     [] name = "Self" -> IF args = <<>> THEN Either ELSE ErrR    \* returns a struct (not a template value)
+    [] name = "Wait" -> IF Len(args) # 1 THEN ErrR               \* parameter of a named integer type
+                        ELSE IF args[1].t = "num" /\ args[1].q % Scale = 0 THEN Elem(Str(S2B("waited ") \o NumToBytes(args[1].q))) ELSE ErrR
+    [] name = "Level" -> IF Len(args) # 1 THEN ErrR
+                         ELSE IF args[1].t = "num" /\ args[1].q % Scale = 0 /\ args[1].q >= 0 /\ args[1].q < 255 * Scale
+                              THEN Elem(Num(args[1].q + Scale)) ELSE ErrR
     [] OTHER -> ErrR
 
 GetAttrRef(d, key, args) ==
@@ -70,7 +77,10 @@ GetAttrRef(d, key, args) ==
          THEN (IF \E q \in 1..Len(d.ents) : d.ents[q][1] = key THEN Elem(d.ents[CHOOSE q \in 1..Len(d.ents) : d.ents[q][1] = key][2]) ELSE ErrR)
          ELSE IF d.keyt = "bool" /\ key.t = "bool"
          THEN (IF \E q \in 1..Len(d.ents) : d.ents[q][1] = key THEN Elem(d.ents[CHOOSE q \in 1..Len(d.ents) : d.ents[q][1] = key][2]) ELSE ErrR)
-         ELSE IF d.keyt = "int" /\ key.t = "num" THEN Either     \* template numbers are float64: convert or reject
+         ELSE IF d.keyt = "int" /\ key.t = "num" THEN           \* every number in a template is a float64: an integral one is a usable key
+              (IF key.q % Scale # 0 THEN ErrR
+               ELSE IF \E q \in 1..Len(d.ents) : d.ents[q][1] = key THEN Elem(d.ents[CHOOSE q \in 1..Len(d.ents) : d.ents[q][1] = key][2])
+               ELSE ErrR)
          ELSE ErrR
     [] d.kind = "struct" ->
          IF key.t # "str" THEN ErrR
